@@ -674,6 +674,77 @@ func (d D) Mutate(p *ast.Program, kind string) (*ast.Program, string, bool) {
 		r.T.Args = append(r.T.Args, ast.N(ns[d.Pick(len(ns), "extra")]))
 		return q, "added an argument to " + r.T.Fn + " in " + declName(r.Decl), true
 	case "wrong-callee":
+		if d.Likely(50, "byconsumer") {
+			// a cut `x <- new f(..)` gets another callee of the same arity, so that x arrives with another
+			// type at whatever uses it. The cuts are grouped by that use (payload of a send, its
+			// continuation, continuation of a select, operand of a cast, forwarded name, argument of a
+			// call, subject of a case / recv / wait ...) and the group is drawn first: every rule's own
+			// comparison of a found type with the expected one gets its share
+			groups := map[string][]termRef{}
+			var keys []string
+			for _, r := range terms {
+				if r.T.Kind != ast.TNew || r.T.Body == nil || r.T.Body.Kind != ast.TCall || r.T.X.Self {
+					continue
+				}
+				x, key := r.T.X.S, ""
+				for k := r.T.K; k != nil && key == ""; k = k.K {
+					switch {
+					case !k.X.Self && k.X.S == x:
+						key = ast.TermKindName[k.Kind] + ".X"
+					case !k.Y.Self && k.Y.S == x:
+						key = ast.TermKindName[k.Kind] + ".Y"
+					case !k.Z.Self && k.Z.S == x:
+						key = ast.TermKindName[k.Kind] + ".Z"
+					}
+					for _, a := range k.Args {
+						if key == "" && !a.Self && a.S == x {
+							key = ast.TermKindName[k.Kind] + ".arg"
+						}
+					}
+					if k.Body != nil && key == "" {
+						for _, a := range k.Body.Args {
+							if !a.Self && a.S == x {
+								key = "new.arg"
+							}
+						}
+						for _, n := range []ast.Nm{k.Body.X, k.Body.Y, k.Body.Z} {
+							if key == "" && !n.Self && n.S == x {
+								key = "new." + ast.TermKindName[k.Body.Kind]
+							}
+						}
+					}
+				}
+				if key == "" {
+					continue
+				}
+				if _, ok := groups[key]; !ok {
+					keys = append(keys, key)
+				}
+				groups[key] = append(groups[key], r)
+			}
+			if len(keys) > 0 {
+				key := keys[d.Pick(len(keys), "consumer")]
+				r := groups[key][d.Pick(len(groups[key]), "site")]
+				var same, sameMode []string
+				orig := q.Fun(r.T.Body.Fn)
+				for _, f := range q.Funs() {
+					if f.Name != r.T.Body.Fn && len(f.Params) == len(r.T.Body.Args) {
+						same = append(same, f.Name)
+						if orig != nil && orig.Ty != nil && f.Ty != nil && f.Ty.M == orig.Ty.M {
+							sameMode = append(sameMode, f.Name) // the type differs, the mode does not
+						}
+					}
+				}
+				if len(sameMode) > 0 && d.Likely(75, "samemode") {
+					same = sameMode
+				}
+				if len(same) > 0 {
+					f := same[d.Pick(len(same), "callee")]
+					r.T.Body.Fn = f
+					return q, fmt.Sprintf("cut %s (used as %s) now spawns %s in %s", r.T.X.S, key, f, declName(r.Decl)), true
+				}
+			}
+		}
 		r, ok := pick(func(r termRef) bool { return r.T.Kind == ast.TCall })
 		fs := q.Funs()
 		if !ok || len(fs) < 2 {
